@@ -31,7 +31,7 @@ type c04Case struct {
 	Seed   int64      `json:"seed"`
 	Bulk   int        `json:"bulk"`   // > 0: bulk mode with that many lines
 	Forget bool       `json:"forget"` // bulk: a drop followed by more than 100 filtered-out lines
-	Long   bool       `json:"long"`   // a follow of several seconds (two of the reader's 3 s truncation checks pass), lines trickling in,
+	Long   bool       `json:"long"`   // a follow of ten seconds (three of the reader's 3 s truncation checks pass), lines trickling in,
 	                                  // a partial line pending across each check; Symlink: the followed path is a symbolic link
 	Symlink bool      `json:"symlink"`
 	Stale  bool       `json:"stale"`  // bulk: a long fully transmitted history, then filtered-out lines reuse its slots, then ONE drop
@@ -197,17 +197,17 @@ func c04Run(c c04Case, base string) (res c04Result) {
 				appended.WriteString(data)
 			}
 		}
-		for time.Since(start) < 6800*time.Millisecond {
+		for time.Since(start) < 9700*time.Millisecond {
 			n++
 			l := fmt.Sprintf("long follow line %d with an a in it %s\n", n, strings.Repeat("=", rng.Intn(40)))
 			el := time.Since(start) % (3 * time.Second)
-			if t := time.Since(start); t > 2850*time.Millisecond && t < 3150*time.Millisecond {
+			if t := time.Since(start); (t > 2800*time.Millisecond && t < 3200*time.Millisecond) || (t > 8800*time.Millisecond && t < 9200*time.Millisecond) {
 				// around the reader's first periodic check: lines as fast as the writer can (the reader is at the end of
 				// the file again and again while more is being appended)
 				appendRaw(l)
 				continue
 			}
-			if el > 2600*time.Millisecond && time.Since(start) > 4*time.Second {
+			if el > 2600*time.Millisecond && time.Since(start) > 4*time.Second && time.Since(start) < 7*time.Second {
 				// around the reader's periodic check: the first half of a line, a pause across the check, the second half
 				appendRaw(l[:len(l)/2])
 				time.Sleep(900 * time.Millisecond)
